@@ -39,6 +39,14 @@ def printPieces : List Piece → List Char
   | .text s :: r => printText s (startsBind r) ++ printPieces r
   | .bind e :: r => "{{".toList ++ e ++ "}}".toList ++ printPieces r
 
+/-- the printer on a whole value; `litOnly`: the value is one string literal binding (`{{ " " }}`): printed like text, except when it is
+only white space (the parser would drop such a text between tags), which stays a binding -/
+def printValue (litOnly : Bool) (spellStr : List Char → List Char) (ps : List Piece) : List Char :=
+  match litOnly, ps with
+  | true, [.text s] =>
+    if !s.isEmpty && s.all (fun c => c = ' ' || (9 ≤ c.toNat && c.toNat ≤ 13)) then "{{".toList ++ spellStr s ++ "}}".toList else printPieces ps
+  | _, _ => printPieces ps
+
 /-- does the input start with `{{` -/
 def startsBB : List Char → Bool
   | '{' :: '{' :: _ => true
